@@ -64,6 +64,8 @@ class Executor(object):
             # (shipped constants are covered by the write barrier and the snapshot; everything the caller made is watched here)
             if isinstance(a, (np.ndarray, list)) or (hasattr(a, "__dict__") and id(a) not in P.BARRIER.ids):
                 out.append((i, a, P.canon(a)))
+            if isinstance(a, np.ndarray) and isinstance(a.base, np.ndarray):
+                out.append((i, a.base, P.canon(a.base)))        # a view: the array the caller cut it from is the caller's too
         return out
 
     def run(self, call, reference=True):
